@@ -155,11 +155,100 @@ func ruleTagFormat(c *Ctx) {
 		}
 		c.Oblige("T.tagfmt", good, pos, "plenccore."+name, name+": | wiretype", "the low bits of the tag are the wire type parameter, OR-ed with the shifted index", nil)
 	}
+	// the three tag functions are the varint functions applied to the tag value: every byte
+	// is written, sized or read by AppendVarUint / SizeVarUint / ReadVarUint (whose agreement
+	// for all values is N.varsize) - a shortcut that writes tag bytes itself has to be right
+	// for every index, which is not shown
+	for name, prim := range map[string]string{"AppendTag": "plenccore.AppendVarUint", "SizeTag": "plenccore.SizeVarUint", "ReadTag": "plenccore.ReadVarUint"} {
+		f := p.ssaFunc("plenccore." + name)
+		if f == nil {
+			continue
+		}
+		delegates, own := 0, 0
+		for _, b := range f.Blocks {
+			for _, in := range b.Instrs {
+				call, ok := in.(*ssa.Call)
+				if !ok {
+					continue
+				}
+				if cal := call.Common().StaticCallee(); cal != nil && ssaFuncName(cal) == prim {
+					delegates++
+				}
+				if bi, ok := call.Common().Value.(*ssa.Builtin); ok && bi.Name() == "append" {
+					own++
+				}
+			}
+			// every return comes after a delegation
+		}
+		retOK := true
+		for _, b := range f.Blocks {
+			if _, isRet := b.Instrs[len(b.Instrs)-1].(*ssa.Return); !isRet {
+				continue
+			}
+			dom := false
+			for _, d := range f.Blocks {
+				if !(d == b || d.Dominates(b)) {
+					continue
+				}
+				for _, in := range d.Instrs {
+					if call, ok := in.(*ssa.Call); ok {
+						if cal := call.Common().StaticCallee(); cal != nil && ssaFuncName(cal) == prim {
+							dom = true
+						}
+					}
+				}
+			}
+			if !dom {
+				retOK = false
+			}
+		}
+		c.Oblige("T.tagfmt", delegates > 0 && own == 0 && retOK, f.Pos(), "plenccore."+name, name+" goes through "+prim+" on every path",
+			fmt.Sprintf("the tag is the varint of index<<3|wiretype and nothing else: %d delegation(s), %d append(s) of its own, every return behind a delegation: %v", delegates, own, retOK), nil)
+	}
+	// ReadTag's n is ReadVarUint's n: a tag is as long as its varint, and "not a tag" is
+	// exactly "not a varint" (a limit on the tag's length turns away large field indexes)
+	if f := p.ssaFunc("plenccore.ReadTag"); f != nil {
+		good, nret := true, 0
+		for _, b := range f.Blocks {
+			r, ok := b.Instrs[len(b.Instrs)-1].(*ssa.Return)
+			if !ok || len(r.Results) != 3 {
+				continue
+			}
+			nret++
+			var leafOK func(v ssa.Value, depth int) bool
+			leafOK = func(v ssa.Value, depth int) bool {
+				if depth > 4 {
+					return false
+				}
+				switch x := v.(type) {
+				case *ssa.Extract:
+					if call, ok := x.Tuple.(*ssa.Call); ok {
+						if cal := call.Common().StaticCallee(); cal != nil && ssaFuncName(cal) == "plenccore.ReadVarUint" {
+							return x.Index == 1
+						}
+					}
+				case *ssa.Phi:
+					for _, e := range x.Edges {
+						if !leafOK(e, depth+1) {
+							return false
+						}
+					}
+					return len(x.Edges) > 0
+				}
+				return false
+			}
+			if !leafOK(r.Results[2], 0) {
+				good = false
+			}
+		}
+		c.Oblige("T.tagfmt", good && nret > 0, f.Pos(), "plenccore.ReadTag", "ReadTag returns ReadVarUint's n",
+			"the number of bytes a tag takes is the length of its varint, on every return: a constant or a capped value makes legal tags (large indexes need five bytes) unreadable or mis-stepped", nil)
+	}
 	k, ok, pos := shiftOf("ReadTag", token.SHR)
 	c.Oblige("T.tagfmt", ok && k == 3, pos, "plenccore.ReadTag", "ReadTag: v >> 3", fmt.Sprintf("index = v >> 3, found shift %d", k), nil)
 	m, ok, pos := shiftOf("ReadTag", token.AND)
 	c.Oblige("T.tagfmt", ok && m == 7, pos, "plenccore.ReadTag", "ReadTag: v & 7", fmt.Sprintf("wire type = v & 7, found mask %d", m), nil)
-	c.Floor("T.tagfmt", 6)
+	c.Floor("T.tagfmt", 10)
 }
 
 // ruleSkipAdvance: on the unknown-field path the offset advances by exactly
